@@ -85,12 +85,14 @@ def wire_packets(kind: str, msgs, rng: random.Random, with_bad: bool = True):
                 pk.append((b"00:00:0%d.000 R " % (i % 10) + p, "valid"))
             if with_bad and i % 2 == 0:
                 pk.append((b"garbage line\r\n", "malformed"))
+                pk.append((b"\xff\xfe\x80 not utf-8 \xc3\r\n", "malformed"))
                 pk.append((b"00:00:00.000 R 09F11299 ZZ\r\n", "malformed"))
                 pk.append((b"\r\n", "empty"))
         else:
             pk.append((b"A00000%d.000 " % (i % 10) + enc.encode_actisense(m).encode() + b"\r\n", "valid"))
             if with_bad and i % 2 == 0:
                 pk.append((b"$GPGGA,not,n2k\r\n", "malformed"))
+                pk.append((b"A000001.000 \xff\xfe\x80 not utf-8 \xc3\r\n", "malformed"))
                 pk.append((b"A000001.000 09FF7 1F513\r\n", "malformed"))
                 pk.append((b"\n", "empty"))
         if keep is not None and kind != "actisense":      # (Actisense carries whole messages: nothing to pick)
